@@ -45,6 +45,33 @@ def run():
     ck.cov['api_events_per_build'] = len(pa)
     ck.cov['evaluations'] = len(isa) + len(vml) + len(lines)
     ck.cov['distinct_nontrivial'] = len(set(isa)) + len(set(lines)) // 2
+    # the caller's FP environment on the portable build (fenv code path): entry control words set through MXCSR, single and pipelined calls;
+    # the word must be restored exactly and the digest must be the fresh one (fresh digests come from the default build)
+    import apiscen
+    pexe = vlib.build_harness('rx_api', variant='portable', extra=['-fno-access-control'])
+    words = [(rc << 13) | 0x1f80 for rc in (1, 2, 3)] + [0x9fc0, 0x1fc0 | (2 << 13), 0x1f80]
+    t = ['AllocCache c1 s1 m1 jit=0 argon=0', 'InitCache c1 K1', 'CreateVm v1 IL c1 none v2=0 hard=0 secure=0']
+    for i, w in enumerate(words):
+        t += ['SetCsr %d' % w, 'Hash v1 %s key=K1' % ('I1' if i % 2 else 'I2')]
+    t += ['SetCsr %d' % words[0], 'HashFirst v1 I1', 'SetCsr %d' % words[1], 'HashNext v1 I2 key=K1 pin=I1', 'SetCsr %d' % words[2], 'HashLast v1 key=K1 pin=I2', 'SetCsr 8064', 'DestroyVm v1', 'ReleaseCache c1']
+    ptabs = apiscen.fresh_tables([(0, 0)], ['IL', 'CL'], os.path.join(wd, 'pfresh'))
+    psc = [{'text': '\n'.join(t) + '\n', 'data': ptabs[(0, 0)][0], 'fresh': ptabs[(0, 0)][1]}]
+    ptr = apiscen.replay(psc, os.path.join(wd, 'preplay'), watchdog=900, binp=pexe)
+    # projected to the configuration-independence events: digest = fresh digest (default build); a single-call hash leaves MXCSR as it was
+    plines = []
+    for l in ptr[0]:
+        ev = json.loads(l)
+        if ev['e'] in ('Hash', 'HashNext', 'HashLast'):
+            o = {'e': 'hash', 'key': 'pfp:' + ev['key'], 'input': 'pfp:' + ev['hin'], 'v2': False, 'out': ev['out'], 'ref': ev['fresh'], 'build': 'portable'}
+            if ev['e'] == 'Hash':
+                o['csrBefore'], o['csrAfter'] = ev['csrBefore'], ev['csrAfter']
+            plines.append(json.dumps(o))
+        elif ev['e'] in ('Crash', 'Timeout', 'Exception', 'HarnessExit'):
+            plines.append(l)
+    pres = vlib.validate_sharded('TraceCfg', 'TraceCfg.cfg', plines, 'c17fp', shards=1, timeout=1500)
+    ck.add_traces('TraceCfg(portable, FP environment)', pres, 'portable build: hash calls under entry MXCSR words with every rounding mode / FTZ / DAZ, single and pipelined; control word restored exactly by the single-call hash, digest = fresh digest of the default build')
+    for rj in pres['rejected']:
+        ck.violation('portable-fpenv:' + rj['line'][:70].replace('"', ''), 'portable build: hash call rejected: %s' % rj['line'][:300], {'tlc': rj['tlc']})
     # the generic fallbacks must not keep process-wide state (a remembered rounding mode, a scratch buffer): per-call global-write footprint
     from checks import c14
     c14.portable_footprint(ck, os.path.join(wd, 'pfoot'))
